@@ -15,14 +15,15 @@ SER = 'cssutils/serialize.py'
 
 
 def run(chk):
-    r03a(chk)
-    r03b(chk)
-    r03c(chk)
-    r03d(chk)
+    chk.attempt(r03a, chk)
+    chk.attempt(r03b, chk)
+    chk.attempt(r03c, chk)
+    chk.attempt(r03d, chk)
     from .c16 import r16b
 
-    r16b(chk, 'R03.e')
-    r03f(chk)
+    chk.attempt(r16b, chk, 'R03.e')
+    chk.attempt(r03f, chk)
+    chk.attempt(r03g, chk)
 
 
 def raw_allowed(nfa_node):
@@ -319,3 +320,38 @@ def r03f(chk, rid='R03.f'):
                 ok = isinstance(got, str) and rx.accepts(string_nfa, got) and decode(('STRING', got, 1, 1)) == _ref_string_decode(t)
                 chk.ob(rid, cb.rel, cb.qual, f'{t} in context {ctx} is written as one STRING token with the same value', ok, f'written as {got!r}')
     chk.extra['string_callback_cases'] = n
+
+
+def r03g(chk, rid='R03.g'):
+    chk.rule(rid, 'the item list of an @import rule keeps the order of the grammar under edits, decided by evaluation: CSSImportRule._setMedia is evaluated on its syntax tree (the item list is util.Seq evaluated from the source) for rules whose list holds comments in front of, behind and on both sides of the href, with and without a media and a name item: afterwards the list holds exactly one media item - the new one -, it stands behind the href and in front of the name, and every other item is where it was; so the text written for the edited rule is `@import href media name` and reparses')
+    from sa.absint import Evaluator, Obj, Raised, Record
+
+    from .c16b import seq_model
+
+    rel = 'cssutils/css/cssimportrule.py'
+    m = chk.repo.mod(rel)
+    fn = m.get('CSSImportRule._setMedia')
+    shapes = ['H', 'CH', 'HC', 'CHC', 'CCH', 'HN', 'CHN', 'HM', 'CHMN', 'HCN', 'CHCMCN', 'HMC']
+    bad = []
+    for shape in shapes:
+        sq = seq_model(chk.repo)
+        for i, k in enumerate(shape):
+            sq.append({'C': f'/*{i}*/', 'H': 'a.css', 'M': 'OLDMEDIA', 'N': 'nm'}[k], {'C': 'COMMENT', 'H': 'href', 'M': 'media', 'N': 'name'}[k])
+        me = Obj(_checkReadonly=lambda: None, _seq=sq, seq=sq, _media='OLDMEDIA', _log=Record(error=lambda *a, **k: None))
+        new = Record(_parentRule=None, tag='NEWMEDIA')
+        res = Evaluator(fn, intrinsics={'cssutils': Record(stylesheets=Record(MediaList=lambda **k: new))}, module=m, cls='CSSImportRule', model_types=(type(sq),)).run(self=me, media=new)
+        after = [(it.type, it.value) for it in sq]
+        want = []
+        done = False
+        for i, k in enumerate(shape):
+            if k == 'M':
+                want.append(('media', new))
+                done = True
+            else:
+                want.append(({'C': 'COMMENT', 'H': 'href', 'N': 'name'}[k], {'C': f'/*{i}*/', 'H': 'a.css', 'N': 'nm'}[k]))
+                if k == 'H' and 'M' not in shape:
+                    want.append(('media', new))
+        if isinstance(res, Raised) or after != want or me._media is not new:
+            bad.append(f'{shape}: {[t for t, _ in after]}' + (f' ({res!r})' if isinstance(res, Raised) else ''))
+    chk.ob(rid, rel, 'CSSImportRule._setMedia', f'the media item replaces the old one or goes directly behind the href ({len(shapes)} item lists)', not bad,
+           '; '.join(bad[:3]) + ': the rule is written with the media list in front of its target (or twice), text that does not reparse to the rule')
